@@ -119,12 +119,33 @@ fn search(log: &str, needles: &[(String, String)], own_only: bool) -> Vec<Value>
 struct SshSrv {
     accept_auth: bool,
     hello: bool,
+    /// a server that offers keyboard-interactive only (PAM, RADIUS, token back-ends): the prompts it sends, each
+    /// with the flag "echo the answer" (RFC 4256 leaves the flag to the server)
+    kbd: Option<Vec<(&'static str, bool)>>,
 }
 #[async_trait]
 impl russh::server::Handler for SshSrv {
     type Error = anyhow::Error;
     async fn auth_password(self, _: &str, _: &str) -> Result<(Self, russh::server::Auth), Self::Error> {
+        if self.kbd.is_some() {
+            return Ok((self, russh::server::Auth::Reject { proceed_with_methods: Some(russh::MethodSet::KEYBOARD_INTERACTIVE) }));
+        }
         let a = if self.accept_auth { russh::server::Auth::Accept } else { russh::server::Auth::Reject { proceed_with_methods: None } };
+        Ok((self, a))
+    }
+    async fn auth_keyboard_interactive(self, _: &str, _: &str, response: Option<russh::server::Response<'async_trait>>) -> Result<(Self, russh::server::Auth), Self::Error> {
+        let Some(prompts) = self.kbd.clone() else {
+            return Ok((self, russh::server::Auth::Reject { proceed_with_methods: None }));
+        };
+        let a = match response {
+            None => russh::server::Auth::Partial {
+                name: "".into(),
+                instructions: "".into(),
+                prompts: prompts.iter().map(|(p, e)| (std::borrow::Cow::Borrowed(*p), *e)).collect::<Vec<_>>().into(),
+            },
+            // whatever is answered is accepted: what matters is what the client wrote into its log on the way
+            Some(_) => russh::server::Auth::Accept,
+        };
         Ok((self, a))
     }
     async fn channel_open_session(self, _: russh::Channel<russh::server::Msg>, s: russh::server::Session) -> Result<(Self, bool, russh::server::Session), Self::Error> {
@@ -146,6 +167,10 @@ impl russh::server::Handler for SshSrv {
 }
 
 async fn ssh_server(accept_auth: bool, hello: bool) -> std::net::SocketAddr {
+    ssh_server_kbd(accept_auth, hello, None).await
+}
+
+async fn ssh_server_kbd(accept_auth: bool, hello: bool, kbd: Option<Vec<(&'static str, bool)>>) -> std::net::SocketAddr {
     let config = Arc::new(russh::server::Config {
         auth_rejection_time: Duration::from_millis(5),
         auth_rejection_time_initial: Some(Duration::ZERO),
@@ -156,7 +181,7 @@ async fn ssh_server(accept_auth: bool, hello: bool) -> std::net::SocketAddr {
     let addr = l.local_addr().unwrap();
     drop(tokio::spawn(async move {
         if let Ok((s, _)) = l.accept().await {
-            if let Ok(r) = russh::server::run_stream(config, s, SshSrv { accept_auth, hello }).await {
+            if let Ok(r) = russh::server::run_stream(config, s, SshSrv { accept_auth, hello, kbd }).await {
                 let _ = timeout(Duration::from_secs(5), r).await;
             }
         }
@@ -252,6 +277,10 @@ fn main() {
                         "refused" => closed_port(),
                         "auth-fails" => ssh_server(false, false).await,
                         "hello-fails" => ssh_server(true, false).await,
+                        "kbd-hidden" => ssh_server_kbd(true, true, Some(vec![("Password: ", false)])).await,
+                        "kbd-login-then-password" => ssh_server_kbd(true, true, Some(vec![("login: ", true), ("Password: ", false)])).await,
+                        "kbd-echoed-passcode" => ssh_server_kbd(true, true, Some(vec![("Enter PASSCODE: ", true)])).await,
+                        "kbd-echoed-odd-prompts" => ssh_server_kbd(true, true, Some(vec![("Account: ", true), ("Secret for operator: ", true), ("Token (optional): ", true)])).await,
                         _ => ssh_server(true, true).await,
                     };
                     match timeout(Duration::from_secs(6), Session::ssh(addr, "operator".to_string(), pw.parse().unwrap())).await {
